@@ -6,6 +6,7 @@ CONSTANTS
   MaxWrite = 3
   Variant = "code"
   EmitOps = TRUE
+  EmitEvery = 1
 INVARIANT Inv
 PROPERTY Refines
 ACTION_CONSTRAINT Emit
